@@ -65,7 +65,7 @@ func ruleR33(c *Ctx) *RuleResult {
 		}
 		// (a) agreement between the walks of one function towards the same bound
 		for i := 1; i < len(walks); i++ {
-			if walks[i].bound == walks[0].bound && strings.Join(walks[i].exitPos, ",") != strings.Join(walks[0].exitPos, ",") {
+			if strings.Join(walks[i].exitPos, ",") != strings.Join(walks[0].exitPos, ",") {
 				bad = append(bad, fmt.Sprintf("the walks of this function land on different positions: %s — versus %s", walks[0].describe, walks[i].describe))
 			}
 		}
@@ -73,8 +73,15 @@ func ruleR33(c *Ctx) *RuleResult {
 		// that landed next to it)
 		for _, w := range walks {
 			hit := false
+			target := w.bound
+			if len(fn.Params) >= 2 {
+				if _, _, isInt := intBits(fn.Params[1].Type()); isInt {
+					target = "p:1" // the requested index
+				}
+			}
+			w.bound = target
 			for _, e := range w.touched {
-				if e == w.bound {
+				if e == target {
 					hit = true
 				}
 			}
@@ -248,8 +255,14 @@ func analyseWalk(gc *GCNF, k int) (walkInfo, []string, bool) {
 			// only nil entries: take the offset the first back edge establishes relative to the other slots later
 			continue
 		}
-		if len(d.c) != 0 {
-			continue // not a constant offset: not a counted walk of this pointer
+		loopVariant := false
+		for x := range d.c {
+			if strings.HasPrefix(x, "P") || strings.HasPrefix(x, "φ") {
+				loopVariant = true
+			}
+		}
+		if loopVariant {
+			continue // the offset depends on loop variables: not a counted walk of this pointer
 		}
 		slots = append(slots, slot{j, *d})
 	}
